@@ -183,3 +183,4 @@ pub mod c15;
 pub mod c19;
 pub mod bundle;
 pub mod cutil;
+pub mod c25;
